@@ -7,6 +7,9 @@ import json, os, re, sys, glob
 
 ROOT = os.path.join(os.path.dirname(os.path.abspath(__file__)), '..', 'seeded')
 OBSOLETE = {
+    'C10-2': "neutralised by fix cb50cf7: set_type now starts self.field_names afresh for every package, so names selected in an earlier "
+             "use of the step object can no longer make an unselected resource go through transform / cast when the matcher check is "
+             "dropped (within one run field_names only has entries for selected resources, as the change's comment says).",
     'C14-6': "neutralised by fix cb50cf7: set_type now collects the matched field names afresh for every package, so registering them with "
              "setdefault(name, [...]) instead of append no longer keeps anything from an earlier use (the defect the change introduced was "
              "a variant of one the pinned tree already had: stale names of an earlier use; the check now covers step reuse natively).",
